@@ -343,6 +343,9 @@ pub fn replay(case: &Value) -> Vec<Violation> {
 }
 
 pub fn replay_any(case: &Value) -> Vec<Violation> {
+    if case.get("point").is_some() {
+        return crate::preempt_family::replay(case);
+    }
     if case.get("history").is_some() {
         return crate::c02::replay(case);
     }
@@ -434,13 +437,23 @@ pub fn run(ctx: &Ctx) -> Report {
         st.samples.push(s.clone());
     }
     rep.set("history_phases", Value::Array(hinfo));
+    // preemption family: a merge thread preempted in front of every storage operation by writer operations
+    let p = crate::preempt_family::run_family(ctx, "C04");
+    let pcomplete = p.complete;
+    rep.set("preemption_scenarios", Value::Array(p.info));
+    rep.set("schedules", p.st.counters.get("preemptions_fired").copied().unwrap_or(0));
+    if p.st.counters.get("preemptions_fired").copied().unwrap_or(0) == 0 {
+        rep.machinery_errors.push("vacuous: no merge preemption fired".into());
+    }
+    st.merge(p.st);
+    let hcomplete = hcomplete && pcomplete;
     if hist_evals == 0 {
         rep.machinery_errors.push("vacuous: no merge history ran".into());
     }
     rep.set("exhaustive", done == cases.len() && hcomplete);
     rep.set("programs", cases.len() as u64 + hist_evals);
     rep.set("disagreements_checked", st.evaluations);
-    rep.set("rule", "every merge of 1-3 source segments of 1-3 documents (all field types, positions, multi-valued fast fields, stored fields, JSON) x every delete subset (incl. a whole source and everything) x source orders x doc-store block size {default, 16 bytes: >= 6 blocks -> stacking} x compressor change between sources and target, through IndexWriter::merge, merge_indices and merge_filtered_segments (custom alive sets); structured sources of 40 / 130 / 200 documents crossing the 128-document block with patterned deletes. plus the history family: every history of 3 (thorough 4) operations under a merge-everything policy with a segment cut after every document (merges of uncommitted and committed segments between all operations) and with explicit merges, checked against the reference model. Oracle: canonical dump of the merged segment == concatenation in source order of the alive documents of the source dumps (stored fields, fast values, field norms, every term's (tf, positions)); no stale term, doc_freq = list length, no deletes left. Non-trivial: some but not all documents deleted; distinct by case");
+    rep.set("rule", "every merge of 1-3 source segments of 1-3 documents (all field types, positions, multi-valued fast fields, stored fields, JSON) x every delete subset (incl. a whole source and everything) x source orders x doc-store block size {default, 16 bytes: >= 6 blocks -> stacking} x compressor change between sources and target, through IndexWriter::merge, merge_indices and merge_filtered_segments (custom alive sets); structured sources of 40 / 130 / 200 documents crossing the 128-document block with patterned deletes. plus the history family: every history of 3 (thorough 4) operations under a merge-everything policy with a segment cut after every document (merges of uncommitted and committed segments between all operations) and with explicit merges, checked against the reference model; plus the preemption family: a merge of two committed segments is preempted in front of EVERY storage operation of its merge thread by each of seven writer-side actions (delete + commit; two delete commits; an uncommitted delete; add + delete + rollback; add + commit + collect; deleting a whole source + commit; delete + add + payload commit + uncommitted tail) and by writer drop + new writer + commit: once the merge has ended - published, reconciled with the newer deletes, or discarded - a fresh open shows exactly the last commit, the next commit shows exactly the replayed calls, and the directory is exact. Oracle (dumps): canonical dump of the merged segment == concatenation in source order of the alive documents of the source dumps (stored fields, fast values, field norms, every term's (tf, positions)); no stale term, doc_freq = list length, no deletes left. Non-trivial: some but not all documents deleted; distinct by case");
     for k in ["writer_merges", "merge_indices", "merge_filtered", "empty_merge_results", "merges_with_deletes", "merges_without_deletes"] {
         if st.counters.get(k).copied().unwrap_or(0) == 0 {
             rep.machinery_errors.push(format!("vacuous: {k} = 0"));
